@@ -38,7 +38,8 @@ type qspec struct {
 	conc   bool
 	max    int64
 	expSec int64
-	parent int // -1 = root
+	parent int    // -1 = root
+	flt    string // own filter: "" (host/*), "mG" / "mP" (method GET / POST only), "py" (url host/y), "h" (header x-c02: 1)
 }
 
 type caseCfg struct {
@@ -62,6 +63,26 @@ type engine struct {
 
 func qname(i int) string { return fmt.Sprintf("q%d", i) }
 
+func filterYAML(flt, indent string, always bool) string {
+	url := host + "/*"
+	extra := ""
+	switch flt {
+	case "mG":
+		extra = indent + "  method: [GET]\n"
+	case "mP":
+		extra = indent + "  method: [POST]\n"
+	case "py":
+		url = host + "/y"
+	case "h":
+		extra = indent + "  headers:\n" + indent + "    - key: x-c02\n" + indent + "      value: \"1\"\n"
+	case "":
+		if !always {
+			return ""
+		}
+	}
+	return indent + "filter:\n" + indent + "  url: " + url + "\n" + extra
+}
+
 func quotaYAML(c caseCfg) string {
 	var roots, kids strings.Builder
 	for i, q := range c.quotas {
@@ -73,9 +94,9 @@ func quotaYAML(c caseCfg) string {
 			strat = "      fixed_window:\n        max: 1000000\n        interval: 1\n        interval_unit: day\n"
 		}
 		if q.parent < 0 {
-			fmt.Fprintf(&roots, "  - id: %s\n    filter:\n      url: %s/*\n    strategy:\n%s", qname(i), host, strat)
+			fmt.Fprintf(&roots, "  - id: %s\n%s    strategy:\n%s", qname(i), filterYAML(q.flt, "    ", true), strat)
 		} else {
-			fmt.Fprintf(&kids, "  - id: %s\n    parent_id: %s\n    strategy:\n%s", qname(i), qname(q.parent), strat)
+			fmt.Fprintf(&kids, "  - id: %s\n    parent_id: %s\n%s    strategy:\n%s", qname(i), qname(q.parent), filterYAML(q.flt, "    ", false), strat)
 		}
 	}
 	out := "quotas:\n" + roots.String()
@@ -341,14 +362,18 @@ func (e *engine) obs() string {
 	return "c=" + strings.Join(cs, ",") + " m=" + strings.Join(ms, ";")
 }
 
-func (e *engine) request(id string, post bool) string {
+func (e *engine) request(id string, post bool, path string, hdr bool) string {
 	method := "GET"
 	if post {
 		method = "POST"
 	}
+	headers := map[string]string{}
+	if hdr {
+		headers["x-c02"] = "1"
+	}
 	on := lunar_messages.OnRequest{
-		ID: id, SequenceID: id, Method: method, Scheme: "https", URL: host + "/x", Path: "/x",
-		Headers: map[string]string{}, Time: e.clk.Now(),
+		ID: id, SequenceID: id, Method: method, Scheme: "https", URL: host + "/" + path, Path: "/" + path,
+		Headers: headers, Time: e.clk.Now(),
 	}
 	api := stream_types.NewRequestAPIStream(on, lunar_context.NewMemoryState[[]byte]())
 	acts := &streamconfig.StreamActions{Request: &streamconfig.RequestStream{}, Response: &streamconfig.ResponseStream{}}
@@ -371,9 +396,13 @@ func (e *engine) request(id string, post bool) string {
 	return v
 }
 
-func (e *engine) response(id string) string {
+func (e *engine) response(id string, post bool, path string) string {
+	method := "GET"
+	if post {
+		method = "POST"
+	}
 	on := lunar_messages.OnResponse{
-		ID: id, SequenceID: id, Method: "GET", URL: host + "/x", Status: 200,
+		ID: id, SequenceID: id, Method: method, URL: host + "/" + path, Status: 200,
 		Headers: map[string]string{}, Time: e.clk.Now(),
 	}
 	api := stream_types.NewResponseAPIStream(on, lunar_context.NewMemoryState[[]byte]())
